@@ -37,6 +37,7 @@ RULES = {
              '(replicate, replicate-remove, replicate-increment) applies the change on every path where the database exists',
     'C04.f': 'the i32 handed to the store / increment and placed into emitted messages originates from the request\'s own '
              'field; literal -1 only for variants without a version',
+    'C04.j': "an arm that replicates one key writes only that key: every Database.map write reachable from a Set / Remove / Increment arm outside the conflict resolver is keyed by the request's own key field (what the emitted message carries)",
 }
 
 WRITE_KINDS = ('map-write', 'map-bulk-write', 'dbs-write', 'guarded-vec-push')
